@@ -31,8 +31,8 @@ EXHAUSTIVE = {"quick": False, "thorough": False}
 FLOOR = {"quick": 100000, "thorough": 1000000}
 REQUIRED_MONITORS = ["C03.roundtrip"]
 SIZES = {
-    "quick": dict(d3_frac=0.12, rand=60000, corpus_files=120, conv_skel=3000, conv_prog=600),
-    "thorough": dict(d3_frac=1.0, rand=400000, corpus_files=None, conv_skel=40000, conv_prog=8000),
+    "quick": dict(pair_frac=0.5, d3_frac=0.12, rand=60000, corpus_files=120, conv_skel=3000, conv_prog=600),
+    "thorough": dict(pair_frac=1.0, d3_frac=1.0, rand=400000, corpus_files=None, conv_skel=40000, conv_prog=8000),
 }
 
 
@@ -148,6 +148,30 @@ def part_compositions(rec, size):
                 rec.count("depth3")
                 if len(rec.samples) < 2 and idx % 1201 == 0:
                     rec.sample({"slot": s, "inner_slot": s2, "plug": p, "source": src})
+
+
+def part_pairs(rec, size):
+    """Two-hole compositions: both operands of every binary-like position filled from the plug catalogue."""
+    plugs = exprs.plug_trees()
+    frac = size.get("pair_frac", 1.0)
+    rng = random.Random(rec.seed * 15485863 + 5)
+    idx = 0
+    for t, tt in exprs.pair_templates():
+        for p1, pt1 in plugs:
+            for p2, pt2 in plugs:
+                idx += 1
+                take = frac >= 1.0 or rng.random() < frac
+                if idx % rec.nshards != rec.shard or not take:
+                    continue
+                if rec.out_of_budget():
+                    rec.truncated += 1
+                    continue
+                T0, src = exprs.parse_produced(exprs.compose2(tt, pt1, pt2))
+                if T0 is None:
+                    rec.count("skipped:" + src)
+                    continue
+                judge(rec, T0, {"kind": "src", "src": src})
+                rec.count("pairs")
 
 
 def part_random(rec, size):
@@ -266,14 +290,16 @@ def run_shard(rec):
     part = rec.args.get("part", "main")
     if part == "main":
         part_compositions(rec, size)
+        part_pairs(rec, size)
         part_random(rec, size)
         part_corpus(rec, size)
         part_converter(rec, size)
     else:
         # other host interpreters: their own grammar/stdlib (symtable and parser differ per version)
         if rec.tier == "quick":
-            size = dict(size, d3_frac=0.02, rand=8000, corpus_files=40, conv_skel=400, conv_prog=100)
+            size = dict(size, d3_frac=0.02, rand=8000, corpus_files=40, conv_skel=400, conv_prog=100, pair_frac=0.05)
         part_compositions(rec, size)
+        part_pairs(rec, size)
         part_random(rec, size)
         part_corpus(rec, size)
         part_converter(rec, size)
